@@ -82,6 +82,7 @@ type Config struct {
 	ExecPkgs    []string
 	ThreadMode  bool
 	MaxSwitches int
+	Seed        uint64
 }
 
 type Exec struct {
@@ -130,6 +131,7 @@ type Exec struct {
 	TotalSteps   int64
 	assertLabels map[string]int
 
+	Records  map[string]string
 	fmtCache map[string]*Term
 	fnInfos  map[*ssa.Function]*fnInfo
 	actions  map[*ssa.Function]*fnAction
